@@ -41,7 +41,7 @@ func main() {
 		tieC:  res.Tie("coll-stream", "K1", "random write histories on a Collection (Add/Update/Delete, successful and failing, every write option, with/without write time, id interceptor, generated ids, fixed/ticking clock, empty/one/many initial records) with backpressured Pull subscribers opened at random points (read mask, updates-only; resource equivalence none/equal/sameA); compared: every seed and every delivery after every write. distinct = distinct (config, op, subscriptions, answer)"),
 		tieV:  res.Tie("value-stream", "K1", "the same for Value.Set / Value.Pull (with/without initial value)"),
 		tieS:  res.Tie("small-scope", "K2", "ALL write histories up to the stated length over ids {a,b} (add/update/create-update/delete/failing-precondition) x every subscription point x {plain, updates-only, read mask} subscribers (opened together when there is no equivalence) x equivalence {none, equal}; distinct = distinct scripts"),
-		tieR:  res.Tie("subscribe-during-write", "K4", "a subscriber opens WHILE one write is in flight, steered through the yield points: (a) subscriber parked at {value,coll}.onUpdate.beforeListen (between its snapshot and its bus registration) while the write runs - compared: whether the write is blocked on the resource lock (decided from the goroutine's wait reason) or finishes, the seed, every delivery; (b) write parked at value.set.beforeSend / coll.update.beforeSend (committed, not published) while the subscriber opens. ALL (initial contents, prefix write, write in flight) over the small alphabet, each followed by three follow-up writes, x both kinds x {plain, updates-only, read mask} x equivalence {none, equal}, Collection and Value; (c) write parked inside Bus.Send right after its snapshot of the listeners (bus.send.afterSnapshot) while the subscriber opens, the snapshot holding {no, a cancelled, a cancelled and a live, a live and a cancelled} listener: the new subscriber is seeded with the write, is not served by that Send, survives its garbage collection and receives every follow-up write; the random K1 histories contain all three kinds of scenario too. distinct = distinct scripts"),
+		tieR:  res.Tie("subscribe-during-write", "K4", "a subscriber opens WHILE one write is in flight, steered through the yield points: (a) subscriber parked at {value,coll}.onUpdate.beforeListen (between its snapshot and its bus registration) while the write runs - compared: whether the write is blocked on the resource lock (decided from the goroutine's wait reason) or finishes, the seed, every delivery; (b) write parked at value.set.beforeSend / coll.update.beforeSend (committed, not published) while the subscriber opens. ALL (initial contents, prefix write, write in flight) over the small alphabet, each followed by three follow-up writes, x both kinds x {plain, updates-only, read mask} x equivalence {none, equal}, Collection and Value; (c) write parked inside Bus.Send right after its snapshot of the listeners (bus.send.afterSnapshot) while the subscriber opens, the snapshot holding {no, a cancelled, a cancelled and a live, a live and a cancelled} listener: the new subscriber is seeded with the write, is not served by that Send, survives its garbage collection and receives every follow-up write; (d) a Delete parked right after its first read (coll.delete.afterRead) while another write of the same or another id runs to completion: ALL (initial contents, prefix write, Delete options {none, allow-missing, expected value, expected check}, overtaking write) - compared: both answers and every delivery (the REMOVE must carry the item actually removed); the random K1 histories contain all four kinds of scenario too. distinct = distinct scripts"),
 		mon:   res.Monitor("writer-log", "the stream each subscriber received vs the writer's own log: seed = current contents sorted by id, flagged, last flagged last, stored change time; then exactly one event per successful write (none for failed writes or a no-op delete), id/kind/old/new from what the writer's calls returned, time = write time or a clock reading within the write, suppression iff the configured equivalence relates the compared pair"),
 	}
 	r := lib.NewRand(f.Seed)
@@ -69,6 +69,7 @@ func main() {
 	h.tieS.Exhaustive = true
 	h.tieR.Exhaustive = true
 	res.Extra["ops_total"] = h.ops
+	res.Extra["scripts_skipped_after_missing_deliveries"] = h.skipped
 	pw := h.cover.report([]string{"upd", "add", "del", "vset"}, []string{"rm", "uo"})
 	res.Extra["pairwise_option_coverage"] = pw
 	h.tieC.Count(fmt.Sprintf("pairwise option combinations covered: %v of %v", pw["covered"], pw["combinations"]))
@@ -83,6 +84,7 @@ type harness struct {
 	tieC, tieV, tieS, tieR *lib.Tie
 	mon                    *lib.Monitor
 	ops                    int
+	skipped                int // scripts not run because the run was already failing on missing deliveries
 }
 
 func (h *harness) tieFor(s Script) *lib.Tie {
@@ -106,6 +108,9 @@ func opLine(o Op) string {
 	}
 	if isRace(o) {
 		return o.Op + " id=" + o.ID + " msg=" + o.Msg + " " + strings.Join(o.Opts, " ")
+	}
+	if o.Op == "raced" {
+		return o.Op + " id=" + o.ID + " " + strings.Join(o.Opts, " ")
 	}
 	return o.line()
 }
@@ -139,6 +144,8 @@ func runCode(s Script) []obs {
 		case "racec":
 			o.ans = r.raceC(op)
 			o.ids = lastRaceIDs
+		case "raced":
+			o.ans, o.ids = r.raceD(op)
 		default:
 			a, sends := r.runWrite(op)
 			if strings.HasPrefix(a, "panic:") || strings.HasPrefix(a, "!") {
@@ -181,6 +188,10 @@ func part(ans, key string) string {
 }
 
 func (h *harness) runScript(s Script, tie *lib.Tie) {
+	if failingFast() {
+		h.skipped++
+		return
+	}
 	code := runCode(s)
 	model, err := h.runModel(s)
 	if err != nil {
@@ -398,6 +409,8 @@ func (w *writerLog) check(m *lib.Monitor, s Script, i int, o obs) {
 		w.checkRaceB(m, in, sig, op, o)
 	case "racec":
 		w.checkRaceC(m, in, sig, op, o)
+	case "raced":
+		w.checkRaceD(m, in, sig, op, o)
 	default:
 		exp, evTime := w.applyWrite(m, in, op, o)
 		w.checkDeliveries(m, in, sig, exp, evTime, o.ans)
@@ -475,6 +488,25 @@ func (w *writerLog) checkRaceC(m *lib.Monitor, in map[string]any, sig string, op
 		m.Violate(sig+"/delivered-although-in-seed", "the write is in the seed and was delivered as well", in, "[]", got)
 	}
 	w.checkSub(m, in, sig, sop, o.ans)
+}
+
+// checkRaceD: a Delete whose first read was overtaken by another write of the writer. The two calls are
+// serialised by the resource lock, the overtaking write first: its event as usual; then the Delete's:
+// a REMOVE whose old value is what the overtaking write left under the id (the value actually removed,
+// which is also what Delete returns) - or nothing if the Delete failed.
+func (w *writerLog) checkRaceD(m *lib.Monitor, in map[string]any, sig string, op Op, o obs) {
+	del, u := splitRaced(op)
+	halves := strings.SplitN(o.ans, " || ", 2)
+	if len(halves) != 2 {
+		m.Violate(sig+"/panic-or-stall", "a call panicked, stalled, or an expected delivery never arrived", in, "two answers", o.ans)
+		return
+	}
+	o1 := obs{ans: strings.Replace(strings.Replace(halves[0], "uval=", "val=", 1), "uerr=", "err=", 1), clk0: o.clk0, clk1: o.clk1, ids: o.ids}
+	e1, t1 := w.applyWrite(m, in, u, o1)
+	w.checkDeliveries(m, in, sig, e1, t1, o1.ans)
+	o2 := obs{ans: halves[1], clk0: o.clk0, clk1: o.clk1}
+	e2, t2 := w.applyWrite(m, in, del, o2)
+	w.checkDeliveries(m, in, sig, e2, t2, o2.ans)
 }
 
 // checkSubID: the seed of a PullID: the item's (projected) current value with its stored change time,
@@ -882,6 +914,21 @@ func genHistory(r *rand.Rand, n int) Script {
 			continue
 		}
 		op := genWrite(r, s, o)
+		if op.Op == "del" && r.Intn(100) < 25 {
+			// this Delete is overtaken by another write between its first read and its write lock
+			u := genWrite(r, s, o)
+			var keep []string
+			for _, t := range u.Opts {
+				if t == "cia" || strings.HasPrefix(t, "wt=") {
+					keep = append(keep, t)
+				}
+			}
+			u.Opts = keep
+			o.step(u)
+			o.step(op)
+			s.Ops = append(s.Ops, racedOp(op, u))
+			continue
+		}
 		o.step(op)
 		s.Ops = append(s.Ops, op)
 	}
@@ -954,6 +1001,29 @@ func (h *harness) raceScope(tie *lib.Tie) {
 	}
 	runC("coll", alpha, [][]string{nil, {"a~1//-"}})
 	runC("val", valpha, [][]string{nil, {"1//-"}})
+	// a Delete overtaken, between its first read and its write lock, by another write (raced): ALL
+	// (initial contents, prefix write, Delete options, overtaking write), two subscribers watching
+	overtaking := []Op{{Op: "upd", ID: "a", Msg: "2/x/-", Opts: []string{"cia"}}, {Op: "upd", ID: "a", Msg: "3//-"},
+		{Op: "upd", ID: "a", Msg: "1/y/-", Opts: []string{"cia", "wt=9"}}, {Op: "add", ID: "a", Msg: "1//-"}, {Op: "del", ID: "a"},
+		{Op: "upd", ID: "b", Msg: "2/x/-", Opts: []string{"cia"}}}
+	delOpts := [][]string{nil, {"am"}, {"ev=1//-"}, {"chk=aEq:1"}}
+	prefixes := [][]Op{nil}
+	for _, a := range alpha {
+		prefixes = append(prefixes, []Op{a})
+	}
+	for _, init := range [][]string{nil, {"a~1//-"}} {
+		for _, pre := range prefixes {
+			for _, do := range delOpts {
+				for _, u := range overtaking {
+					ops := []Op{{Op: "sub", Opts: []string{"name=k"}}, {Op: "sub", Opts: []string{"name=m", "rm=a"}}}
+					ops = append(ops, pre...)
+					ops = append(ops, racedOp(Op{Op: "del", ID: "a", Opts: do}, u))
+					ops = append(ops, alpha[:3]...)
+					h.runScript(Script{Cfg: Cfg{Kind: "coll", Tick: 1, Init: init}, Ops: ops}, tie)
+				}
+			}
+		}
+	}
 }
 
 func (h *harness) smallScope(maxLen int) {
